@@ -142,6 +142,7 @@ let register () =
             | 'd' -> let i = int_of_string (rest op) in
               if i >= n then st else fst (run [EvClose (nat_of_int i)] st)
             | 's' -> fst (run [EvSweep] st)
+            | 'i' -> fst (run (inbound_events n (Stdlib.List.map (fun s -> (s.s_kind, 0)) st) (rest op)) st)
             | _ -> failwith "bad op") st0 (ops_of sched) in
         report (Array.to_list codes) st
       | _ -> "bad-args")
